@@ -297,6 +297,9 @@ const SEEDS: &[&str] = &[
     "from t | select {a, b} | derive {z = s\"COALESCE({a}, {b})\"} | filter z > 0",
     "from t | take 5 | derive x = a | take 3 | derive y = x + 1 | filter y > 2 | select {y}",
     "from t | group {a} (sort b | take 2) | group {a} (aggregate {s = sum b}) | join u (==a)",
+    // a joined sub-pipeline that exposes the name `a` twice (recorded finding)
+    "let q = (from t | select {a, b})\nfrom q | join u (==a) | join r=(from u | join l=q (u.d == l.b)) true",
+    "let q = (from t | select {a, b})\nfrom t | join r=(from u | join l=q (u.d == l.b)) (t.a == r.d) | select {t.a, r.d, r.b}",
 ];
 
 pub fn run(tier: Tier) -> i32 {
